@@ -1,12 +1,14 @@
 #!/bin/bash
-# Usage: mutant_queue.sh <nslots> : evaluates + confirms every complete mutant under /tmp/mut that has no eval.json or confirm.json yet
+# Usage: mutant_queue.sh <nslots> [base dir, default /tmp/mut] : evaluates + confirms every complete mutant under /tmp/mut that has no eval.json or confirm.json yet
 N=${1:-4}
-ls -d /tmp/mut/C*/m* | while read d; do
+BASE=${2:-/tmp/mut}
+TAG=$(basename $BASE)
+ls -d $BASE/C*/m[0-9]* | while read d; do
   [ -f $d/patch.diff ] && [ -f $d/demo_test.go ] && [ -f $d/notes.md ] || continue
   [ -f $d/eval.json ] && [ -f $d/confirm.json ] && continue
   echo $d
 done > /tmp/mutqueue.txt
 wc -l /tmp/mutqueue.txt
 for s in $(seq 0 $((N-1))); do
-  awk -v s=$s -v n=$N 'NR%n==s' /tmp/mutqueue.txt | xargs -r nohup /verif/tools/mutant_slot.sh q$s > /tmp/slotq$s.log 2>&1 &
+  awk -v s=$s -v n=$N 'NR%n==s' /tmp/mutqueue.txt | xargs -r nohup /verif/tools/mutant_slot.sh ${TAG}q$s > /tmp/slot${TAG}q$s.log 2>&1 &
 done
